@@ -405,9 +405,9 @@ func execScope(input string) Result {
 	var nodes []string
 	t.seed.Traverse(func(it *models.Item) {
 		u := it.GetURL()
-		iv, rv := "None", "None" // the strings are only looked at for nodes that carry a request
+		iv, rv := "None", "None" // the strings are only looked at for nodes that carry a request, and for the seed
 		req := u.GetRequest()
-		if p := u.GetParsed(); p != nil && req != nil {
+		if p := u.GetParsed(); p != nil && (req != nil || it.IsSeed()) {
 			iv = coqUView(p, u.String())
 		}
 		if req != nil && req.URL != nil {
